@@ -30,6 +30,9 @@ type c02Params struct {
 	// plugin returns this NOTIFICATION from OnOpenMessage (PlugData < 0: accept)
 	PlugCode, PlugSub uint8
 	PlugData          int
+	// Glue: an UPDATE with a 64-byte body follows the OPEN in the same write and
+	// OnOpenMessage takes 2 virtual microseconds (the reader runs ahead)
+	Glue bool
 }
 
 func c02World(t *testing.T, p c02Params) rt.Result {
@@ -52,14 +55,26 @@ func c02World(t *testing.T, p c02Params) rt.Result {
 		ps.LocalAS, ps.RemoteAS = p.LocalAS, p.RemoteAS
 		ps.Hold = 90
 		ps.Passive = p.Dir == "in"
-		ps.Cfg.OnOpen = func(int, netip.Addr, []corebgp.Capability) *corebgp.Notification { return plugN }
+		ps.Cfg.OnOpen = func(int, netip.Addr, []corebgp.Capability) *corebgp.Notification {
+			if p.Glue {
+				time.Sleep(2 * time.Microsecond)
+			}
+			return plugN
+		}
 		s := bring(w, ps, p.Dir, stOpenSent, 0)
 		if s == nil {
 			return
 		}
 		rc := s.rc
 		msg := wire.Msg(wire.TypeOpen, body)
-		rc.W.Log.Add("tx", ps.Addr.String(), rc.ID, "OPEN(body "+p.Body+")", "")
+		if p.Glue {
+			eb := make([]byte, 64)
+			for i := range eb {
+				eb[i] = 0xEE
+			}
+			msg = append(msg, wire.Update(eb)...)
+		}
+		rc.W.Log.Add("tx", ps.Addr.String(), rc.ID, "OPEN(body "+p.Body+")", fmt.Sprintf("glue=%v", p.Glue))
 		rc.SendCuts(msg, cuts(r, len(msg)), time.Nanosecond)
 		w.Settle()
 		got := rc.Msgs()[1:]
@@ -117,6 +132,13 @@ func c02World(t *testing.T, p c02Params) rt.Result {
 			}
 			return
 		}
+		if p.Glue {
+			// KEEPALIVE for the OPEN, then the UPDATE is an FSM error in OpenConfirm
+			if len(got) != 2 || got[0].Type != wire.TypeKeepalive || got[1].Type != wire.TypeNotification || got[1].Notif.String() != (&wire.Notif{Code: 5, Sub: 2, Data: []byte{2}}).String() || !eof {
+				w.Violate("%s followed at once by an UPDATE: expected KEEPALIVE then NOTIFICATION(5,2,02) and close, got [%s] eof=%v", desc, typesOf(got), eof)
+			}
+			return
+		}
 		if len(got) != 1 || got[0].Type != wire.TypeKeepalive || eof {
 			w.Violate("%s: acceptable OPEN must be answered by exactly one KEEPALIVE, got [%s] eof=%v", desc, typesOf(got), eof)
 			return
@@ -161,6 +183,7 @@ func TestC02(t *testing.T) {
 		p := c02Params{Dir: allDirs[r.IntN(2)], LocalAS: cf[0], RemoteAS: cf[1], Body: hex.EncodeToString(body),
 			Seed: uint64(i)*15485863 + c.Seed, Hook: hookMode(r), PlugData: dlens[r.IntN(len(dlens))]}
 		p.PlugCode, p.PlugSub = uint8(r.IntN(256)), uint8(r.IntN(256))
+		p.Glue = r.IntN(4) == 0
 		runCase(t, "e2e", i, p, func(t *testing.T) rt.Result { return c02World(t, p) })
 	}
 }
